@@ -524,6 +524,9 @@ def run(rep):
         run_group(rep, group)
 
 
+_SHARED = '<names sharing a display of empties>'
+
+
 class _NP(object):
     """Abstract interpretation of normalize_path over the shapes a canonical path can be built from.
 
@@ -565,9 +568,8 @@ class _NP(object):
         if self._segments(e):
             self.seg_defs += 1
             return [(facts, ['segs', 0, 0])]
-        if isinstance(e, (ast.List, ast.Tuple)) and all(isinstance(x, ast.Constant) and x.value == '' for x in e.elts) and \
-                (e.elts or isinstance(e, ast.Tuple)):
-            return [(facts, ('empties', len(e.elts)))]      # [''] / ('',) / (): a display of empty segments
+        if isinstance(e, (ast.List, ast.Tuple)) and all(isinstance(x, ast.Constant) and x.value == '' for x in e.elts):
+            return [(facts, ('empties', len(e.elts)))]      # [''] / ('',) / [] / (): a display of (no) empty segments
         if isinstance(e, ast.Call) and self._is_chain(e.func) and e.args and not e.keywords and not any(isinstance(a_, ast.Starred) for a_ in e.args):
             # itertools.chain(a, b, ..): the items of a, then of b, ... -- a new sequence, like a + b + ..
             alts = self.ev(e.args[0], st, facts)
@@ -669,10 +671,14 @@ class _NP(object):
                 st2 = copy.deepcopy(st)
                 if isinstance(s.value, ast.Name) and isinstance(st.get(s.value.id), list):
                     v = st2[s.value.id]          # alias of the same list object
+                elif isinstance(s.value, ast.Name) and v[0] == 'empties':
+                    # a second name for a display of empties (possibly a list): extending either in place is not followed
+                    st2[_SHARED] = st2.get(_SHARED, frozenset()) | {s.value.id, s.targets[0].id}
                 st2[s.targets[0].id] = v
                 out.append((st2, f1))
             return out
-        if isinstance(s, ast.AugAssign) and isinstance(s.target, ast.Name) and isinstance(s.op, ast.Add):
+        if isinstance(s, ast.AugAssign) and isinstance(s.target, ast.Name) and isinstance(s.op, ast.Add) and \
+                s.target.id not in st.get(_SHARED, ()):
             out = []
             for f1, v in self.ev(s.value, st, facts):
                 st2 = copy.deepcopy(st)
